@@ -191,6 +191,8 @@ func mergeASAACLs(ab *cmdsPair, name, prefix string) {
 				break
 			}
 		}
+		// No permit line found: add in front.
+		i = max(i, 0)
 		acl = append(acl[:i], append(appendACL, acl[i:]...)...)
 	}
 	// Store changed ACL.
@@ -226,6 +228,8 @@ func mergeIOSACLs(ab *cmdsPair, name, prefix string) {
 				break
 			}
 		}
+		// No permit line found: add in front.
+		i = max(i, 0)
 		acl = append(acl[:i], append(appendACL, acl[i:]...)...)
 	}
 	// Store changed ACL.
